@@ -29,8 +29,9 @@ def kv (s : String) (k : String) : Option Int :=
     | [a, b] => if a == k then b.toInt? else none
     | _ => none)
 
-/-- `e2edelay cmd delayMs injPct rep=R|exit=µs;inj=µs`: the process did not exit before
-    (last probe) + delay (2 ms tolerance for comparing a user-level clock reading with a kernel stamp), and
+/-- `e2edelay cmd delayMs injPct rep=R|exit=µs;inj=µs`: the process (or, in a chunked port scan, the engine run) did
+    not end before (last probe) + delay (2 ms tolerance for comparing a user-level clock reading with a kernel stamp)
+    and not later than 2.5 s after it ("when the delay is over it does exit, within bounded time"), and
     a reply injected at least 120 ms before the end of the delay is printed exactly once -/
 def handleE2EDelay : List String → Option String
   | [_cmd, delayMs, _pct, obsAll] => do
@@ -40,7 +41,7 @@ def handleE2EDelay : List String → Option String
       let rep := (kv canon "rep").getD (-1)
       let v := match kv raw "exit", kv raw "inj" with
         | some ex, some inj =>
-          decide (ex ≥ d * 1000 - 2000) &&
+          decide (ex ≥ d * 1000 - 2000) && decide (ex ≤ d * 1000 + 2500000) &&
           (if inj ≥ 0 ∧ inj ≤ d * 1000 - 120000 then rep == 1 else (rep == 0 || rep == 1))
         | _, _ => false
       -- canonical part of the model: the expected report count when the injection is well inside the delay
